@@ -1,4 +1,5 @@
 import TacklerModel.Model.SubCmd
+import TacklerModel.Props.C14
 /-!
 # C14b — the file-writing sub-commands never overwrite, and write only their own files
 
@@ -241,6 +242,21 @@ example : (initExec txs "." mineTree).2.node "./txns/journal.txn" = some (.file 
   rw [init_refuses_existing txs "." mineTree (Or.inr (by decide))]; decide
 example : (newExec txs "books" emptyTree).1 = true := by decide
 example : (newExec txs "books" emptyTree).2.node "books/conf/tags.toml" = some (.file [4]) := by decide
+
+/-! ### a destination with zero bytes of content (seeded change C14-7: the file created lazily on the first write)
+
+`success_complete` quantifies over every cutting of the content into write calls – the empty one included: an export
+that writes nothing still has its (empty) file at the announced path. -/
+
+def emptyExport : Plan := ⟨[], [⟨"out/equity.txn", [], true, true⟩]⟩
+
+example : (run 8192 emptyExport emptyFS (fun _ => none)).exit = 0 := by decide
+example : (run 8192 emptyExport emptyFS (fun _ => none)).fs.file "out/equity.txn" = some [] := by decide
+example : (run 8192 emptyExport emptyFS (fun _ => none)).announced = ["out/equity.txn"] := by decide
+/-- … and it is the instance of the theorem, not only an evaluation -/
+example : (run 8192 emptyExport emptyFS (fun _ => none)).fs.file "out/equity.txn"
+    = some (Dest.content ⟨"out/equity.txn", [], true, true⟩) :=
+  ((success_complete 8192 emptyExport emptyFS (fun _ => none) (by decide)).1 ⟨"out/equity.txn", [], true, true⟩ (by decide)).1
 
 end C14
 end Tackler
